@@ -231,6 +231,7 @@ func driveAggregate(t *testing.T, in, out string, seed int64) {
 	for bi, b := range behaviours {
 		w := newAggWorld()
 		c := w.C
+		RoundTripAtEnd("aggregate", bi, map[string]*Chain{"host": c})
 		user := c.Accts[0]
 		tw.Emit(M{"ev": "Reset", "b": bi, "i": 0, "res": "ok", "args": M{}, "sig": "Reset", "st": w.project(), "dg": M{"pre": "", "post": ""}, "delta": M{}})
 		for si, st := range b {
